@@ -20,8 +20,8 @@ candidate reported for it — `static_candidate_sound` (one operator), `static_c
 `dynamic_candidate_sound_partial` (tag operand), `fold_requires_at_least_one_sound`.
 
 The dynamic statement is FALSE on the pinned code for `>=` (finding F-1: both `GreaterThanOrEqual`
-arms of dynamic.rs build `Range::with_end`): `dynamic_candidate_sound_false`; and the resolution of
-an ordering hint against a null tag value panics (finding F-2): `dynamic_candidate_null_tag_panics`.
+arms of dynamic.rs build `Range::with_end`): `dynamic_candidate_sound_false`.  Findings F-2 / F-2b (the resolution of an ordering / `one_of` hint
+against a null tag value panicked) are repaired: `dynamic_candidate_null_tag_empty`.
 Finding F-C04-1 (look-ahead through a non-root `@optional` edge reported binding hints) is repaired:
 `lookahead_through_optional_non_binding`.
 
@@ -110,18 +110,29 @@ theorem dynamic_candidate_ge_sound_when_repaired (ni : Bool) (x v : Value) (init
     (hc : candidateOfTagFixedGe ni v initial = .ok c) : c.mem x = true :=
   (candidateOfTagFixedGe_sound ni x v initial c hi hf hc).1
 
-/-- **F-2.** A null tag value under an ordering operator (or `one_of`) makes the resolution of the
-hint panic (`Range::new`'s assertion / the `as_slice` panic), although the filter itself is simply
-false on null: every operand is admissible for the filter, not for the hint. -/
-theorem dynamic_candidate_null_tag_panics (ni : Bool) (initial : Candidate) :
-    (∃ s, candidateOfTag ni .lessThan (.some .null) initial = .panic s) ∧
-    (∃ s, candidateOfTag ni .lessThanOrEqual (.some .null) initial = .panic s) ∧
-    (∃ s, candidateOfTag ni .greaterThan (.some .null) initial = .panic s) ∧
-    (∃ s, candidateOfTag ni .greaterThanOrEqual (.some .null) initial = .panic s) ∧
-    (∃ s, candidateOfTag ni .oneOf (.some .null) initial = .panic s) ∧
-    (∀ x, lessThan x .null = .ok false) := by
-  refine ⟨⟨_, rfl⟩, ⟨_, rfl⟩, ⟨_, rfl⟩, ⟨_, rfl⟩, ⟨_, rfl⟩, fun x => ?_⟩
-  cases x <;> rfl
+/-- **F-2 / F-2b, repaired.**  History: before the repair a null tag value under an ordering
+operator went into `Range::with_end/with_start` and hit the assertion of `Range::new`
+(`cannot bound range with null value`), and under `one_of` the `as_slice()` of the null list
+panicked — although the filters are simply false on a null operand (earlier revision:
+`dynamic_candidate_null_tag_panics : ∃ s, candidateOfTag ni .lessThan (.some .null) initial =
+.panic s ∧ …`).  Now, on the context-field and imported-tag paths, the resolution yields a candidate
+that contains no value — exactly what the filter admits. -/
+theorem dynamic_candidate_null_tag_empty (o : BinOp) (initial : Candidate) (hw : initial.wf = true)
+    (ho : o = .lessThan ∨ o = .lessThanOrEqual ∨ o = .greaterThan ∨ o = .greaterThanOrEqual ∨ o = .oneOf) :
+    ∃ c, candidateOfTag true o (.some .null) initial = .ok c ∧ ∀ x, c.mem x = false := by
+  rcases ho with rfl | rfl | rfl | rfl | rfl
+  · exact ⟨_, rfl, fun x => by rw [mem_intersect' _ _ x hw rfl]; simp [Candidate.mem]⟩
+  · exact ⟨_, rfl, fun x => by rw [mem_intersect' _ _ x hw rfl]; simp [Candidate.mem]⟩
+  · exact ⟨_, rfl, fun x => by rw [mem_intersect' _ _ x hw rfl]; simp [Candidate.mem]⟩
+  · exact ⟨_, rfl, fun x => by rw [mem_intersect' _ _ x hw rfl]; simp [Candidate.mem]⟩
+  · exact ⟨_, rfl, fun x => by rw [mem_intersect' _ _ x hw rfl]; simp [Candidate.mem, Cand.containsV]⟩
+
+/-- … and that is precise: no value passes an ordering or `one_of` filter against null. -/
+theorem null_operand_filters_are_false (rx : RegexEngine) (x : Value) :
+    lessThan x .null = .ok false ∧ lessThanOrEqual x .null = .ok false ∧
+    greaterThan x .null = .ok false ∧ greaterThanOrEqual x .null = .ok false ∧
+    applyTagged rx .oneOf x .null = .ok false := by
+  cases x <;> exact ⟨rfl, rfl, rfl, rfl, rfl⟩
 
 /-- `fold_requires_at_least_one_element`: when it answers `true`, every fold count that passes the
 fold's count filters (those with a variable operand; tag operands are ignored by the hint) is ≥ 1 —
@@ -289,7 +300,8 @@ end TF.C04
 #print axioms TF.C04.dynamic_candidate_sound_partial
 #print axioms TF.C04.dynamic_candidate_sound_false
 #print axioms TF.C04.dynamic_candidate_ge_sound_when_repaired
-#print axioms TF.C04.dynamic_candidate_null_tag_panics
+#print axioms TF.C04.dynamic_candidate_null_tag_empty
+#print axioms TF.C04.null_operand_filters_are_false
 #print axioms TF.C04.fold_requires_at_least_one_sound
 #print axioms TF.C04.non_binding_reports_nothing
 #print axioms TF.C04.optional_edge_non_binding
